@@ -85,4 +85,39 @@ def check (i : Inst) (tol unit e0 : Int) (as : List Nat) : Bool :=
   Cvrp.check i.base tol as && checkStatic i (if Params.cvrptwCheckRow0 then e0 else i.twE 0) &&
     checkClock i unit 0 0 as
 
+/-! ### the checker with its two questionable clauses as explicit switches
+
+`checkG trunc row0` is `check_solution_validity` with `.int()` on the arrival time iff `trunc` and the static
+assertion reading batch row 0's depot deadline iff `row0`; the code as it is corresponds to
+`checkG Params.cvrptwCheckTruncates Params.cvrptwCheckRow0` (`check_eq_checkG`), the repaired checker to
+`checkG false false`. -/
+
+def checkClockG (trunc : Bool) (i : Inst) (unit : Int) : Int → Nat → List Nat → Bool
+  | _, _, [] => true
+  | t, cur, a :: as =>
+    let arr := t + i.base.D cur a
+    let t1 := max (if trunc then truncInt unit arr else arr) (i.twS a)
+    Params.cvrptwCheckTwCmp.eval t1 (i.twE a) &&
+      checkClockG trunc i unit (if a = 0 then 0 else t1 + i.dur a) a as
+
+def checkG (trunc row0 : Bool) (i : Inst) (tol unit e0 : Int) (as : List Nat) : Bool :=
+  Cvrp.check i.base tol as && checkStatic i (if row0 then e0 else i.twE 0) && checkClockG trunc i unit 0 0 as
+
+/-- raw Solomon-format instance as `extract_from_solomon` receives it -/
+structure Solomon where
+  n        : Nat
+  capacity : Int
+  demand   : Nat → Int        -- raw demands
+  twS      : Nat → Int
+  twE      : Nat → Int
+  service  : Nat → Int
+  D        : Nat → Nat → Int
+
+/-- `extract_from_solomon`: coordinates, RAW demands, service times and windows are copied; the vehicle
+capacity of the reset state is NOT the instance's (`self.vehicle_capacity = instance["capacity"]` is never
+read) but the generator's (`genCap`, 1.0 by default) -/
+def ofSolomon (raw : Solomon) (genCap : Int) : Inst :=
+  { base := { n := raw.n, cap := genCap, demand := raw.demand, D := raw.D }
+    twS := raw.twS, twE := raw.twE, dur := raw.service }
+
 end Rl4co.Cvrptw
